@@ -101,6 +101,47 @@ def relayout(a, kind):
     raise KeyError(kind)
 
 
+SHIFTS = [0.0, 1e-12, 1e-9, 1e-7, 1e-6, 1e-5, 1e-4, 1e-3]
+
+
+def near_rows(rng, g, row0, nT, mixed):
+    """'nearly equal rows' family: every row = a common grid + a per-row shift of 0 / 1e-12 ... 1e-3, relative to |x| or
+    absolute in units of max|x| (large-offset grids); with mixed=True some rows are exactly row 0 and some unrelated."""
+    row0 = np.asarray(row0, dtype=np.float64)
+    rows = [row0]
+    big = max(1.0, float(np.abs(row0).max()))
+    for _ in range(1, nT):
+        r = rng.random()
+        if mixed and r < 0.25:
+            rows.append(row0.copy())
+        elif mixed and r < 0.5:
+            rows.append(g.permutation(row0) + g.uniform(-1, 1, row0.size))
+        else:
+            sft = rng.choice(SHIFTS) * rng.choice([-1.0, 1.0])
+            rows.append(row0 * (1.0 + sft) if rng.random() < 0.5 else row0 + sft * big)
+    return np.array(rows)
+
+
+def count_row_closeness(out, xpos):
+    """which decision an 'are all rows the same?' test would have to take for this explicit xpos"""
+    x = np.asarray(xpos, dtype=np.float64)
+    if x.shape[0] < 2:
+        return
+    d = np.abs(x[1:] - x[:1])
+    if not d.any():
+        out.count('xpos_rows_identical')
+        return
+    rel = float((d / np.maximum(np.abs(x[:1]), 1e-300)).max())
+    for lim, name in ((1e-10, '1e-10'), (1e-7, '1e-7'), (1e-5, '1e-5'), (1e-3, '1e-3')):
+        if rel <= lim * 1.001:
+            out.count('xpos_rows_differ_by_at_most_%s_relative' % name)
+            break
+    else:
+        out.count('xpos_rows_unrelated')
+    if (d <= 1e-8 + 1e-5 * np.abs(x[:1])).all():
+        out.count('xpos_rows_different_but_allclose')
+
+
 def _lst(a):
     return np.asarray(a, dtype=np.float64).tolist()
 
@@ -124,7 +165,9 @@ class C13(Check):
             'random coefficient matrices evaluated at given positions, on the default grid and with ignore_jump, then again '
             '(every explicit xpos and every array given to xy2traceset drawn from the layout family C / Fortran / transposed '
             'view / C- and F-strided / reversed along either axis / read-only / big-endian, func_fit arguments strided / '
-            'reversed / read-only / big-endian) '
+            'reversed / read-only / big-endian; rows of the positions unrelated, identical, or one common grid (offsets 0, 1000..5000, '
+            '3500, 1e5) with per-row shifts of 0 / 1e-12 .. 1e-3 relative or absolute, the default grid given explicitly, points and '
+            'explicit xmin/xmax 1e-12..1e-3 beside xmin, xmax, the jump edges and the data extremes) '
             'on the same object in another order (jump / ignore_jump alternating, reshaped xpos, first xpos again); default '
             'grids with xmax-xmin exactly integral, within 1e-12..1e-3 of an integer and generic.  Non-trivial: a basis '
             'case with m >= 3; a fit with unequal weights, a zero weight or a fixed coefficient; a trace set with >= 2 '
@@ -160,6 +203,10 @@ class C13(Check):
                          'tset_xmin_explicit_zero', 'table_jump_falsy_value',
                          'xpos_layout_C', 'xpos_layout_F', 'xpos_layout_T', 'xpos_layout_strided', 'xpos_layout_Fstrided',
                          'xpos_layout_reversed', 'xpos_layout_rowreversed', 'xpos_layout_readonly', 'xpos_layout_bigendian',
+                         'xpos_rows_identical', 'xpos_rows_unrelated', 'xpos_rows_different_but_allclose',
+                         'xpos_rows_differ_by_at_most_1e-10_relative', 'xpos_rows_differ_by_at_most_1e-7_relative',
+                         'xpos_rows_differ_by_at_most_1e-5_relative', 'xpos_rows_differ_by_at_most_1e-3_relative',
+                         'xpos_explicit_default_grid_or_hair_beside', 'tset_explicit_limits_hair_beside_data',
                          'tset_fit_args_layout_not_C', 'fit_args_layout_strided', 'fit_args_layout_reversed',
                          'fit_args_layout_readonly', 'fit_args_layout_bigendian',
                          'table_eval_jump', 'table_eval_ignore_jump', 'table_eval_nojump', 'table_split_step_decided',
@@ -327,9 +374,13 @@ class C13(Check):
         span = rng.choice([nx, nx, 2048, 4096, rng.uniform(5, 500)])
         off = rng.choice([0.0, 0.0, rng.uniform(-50, 50), rng.uniform(0, 3000)])
         base = np.linspace(0, span - 1, nx) if rng.random() < 0.7 else np.sort(g.uniform(0, span - 1, nx))
-        mode = rng.choice(['same', 'jitter', 'shuffle'])
+        mode = rng.choice(['same', 'jitter', 'shuffle', 'nearrows', 'nearrows'])
+        if mode == 'nearrows':
+            # one grid (pixel grid with a large offset, wavelength-like) with per-row shifts of 0 / 1e-12 .. 1e-3
+            off = rng.choice([0.0, 1000.0, rng.uniform(1000, 5000), 3500.0, 1e5])
+            return near_rows(rng, g, base + off, nT, rng.random() < 0.4).astype(DT[dt])
         xpos = np.tile(base, (nT, 1)) + off
-        if mode != 'same':
+        if mode not in ('same',):
             xpos = xpos + g.uniform(-0.3, 0.3, (nT, nx)) * (span / nx)
         if mode == 'shuffle':
             for t in range(nT):
@@ -347,11 +398,16 @@ class C13(Check):
             xpos = self._positions(rng, g, nT, nx, dt)
             x64 = xpos.astype(np.float64)
             dmin, dmax = float(x64.min()), float(x64.max())
-            mm = rng.choice(['data', 'data', 'wider', 'exact', 'zero'])
+            mm = rng.choice(['data', 'data', 'wider', 'exact', 'zero', 'hair'])
             if mm == 'zero' and not dmin > 0:
                 mm = 'wider'
             if mm == 'zero':                       # explicit xmin = 0 (a falsy value) although the data start later
                 xmin, xmax = 0.0, float(np.ceil(dmax))
+                rmin, rmax = xmin, xmax
+            elif mm == 'hair':                   # explicit limits a hair outside the data extremes: must be kept as given
+                h = 10.0 ** rng.uniform(-12, -4)
+                xmin = dmin - h * max(1.0, abs(dmin))
+                xmax = dmax + h * max(1.0, abs(dmax))
                 rmin, rmax = xmin, xmax
             elif mm == 'data':
                 xmin = xmax = None
@@ -467,7 +523,7 @@ class C13(Check):
             xmin = rng.choice([0.0, 0.0, float(rng.randint(-100, 100)), rng.uniform(-100, 100)])
             xmax = xmin + rng.choice([float(rng.randint(50, 600)), rng.uniform(50, 600), 2047.0 if deep else 511.0])
         else:
-            xmin = rng.choice([0.0, 0.0, float(rng.randint(-100, 100)), rng.uniform(-100, 3000)])
+            xmin = rng.choice([0.0, 0.0, float(rng.randint(-100, 100)), rng.uniform(-100, 3000), 1000.0, 3500.0, 1e5])
             xmax = xmin + rng.choice([float(rng.randint(2, 600)), rng.uniform(2, 600), 2047.0 if deep else 511.0])
         if fmt == 'E':
             xmin, xmax = float(np.float32(xmin)), float(np.float32(xmax))
@@ -517,6 +573,25 @@ class C13(Check):
                 xp[sel] = g.uniform(jump[0] - 1, jump[1] + 1, xp.shape)[sel]      # around / inside the jump window
                 xp[g.uniform(size=xp.shape) < 0.03] = jump[0]
                 xp[g.uniform(size=xp.shape) < 0.03] = jump[1]
+                # a hair beside the window edges (a tolerance test instead of a comparison would move them)
+                for edge in (jump[0], jump[1]):
+                    sel = g.uniform(size=xp.shape) < 0.03
+                    xp[sel] = (edge + g.choice([-1.0, 1.0], xp.shape) * 10.0 ** g.uniform(-12, -3, xp.shape) * max(1.0, abs(edge)))[sel]
+            # a hair inside / outside xmin and xmax
+            for edge in (xmin, xmax):
+                sel = g.uniform(size=xp.shape) < 0.03
+                xp[sel] = (edge + g.choice([-1.0, 1.0], xp.shape) * 10.0 ** g.uniform(-12, -3, xp.shape) * max(1.0, abs(edge)))[sel]
+            rowmode = rng.choice(['unrelated', 'unrelated', 'near', 'near', 'near_mixed', 'neargrid'])
+            if rowmode == 'neargrid':
+                # the default grid itself (or a hair beside it) given explicitly: "is this the default grid?" must not matter
+                ncol = int(xmax - xmin + 1)
+                if ncol <= 400:
+                    xp = near_rows(rng, g, xmin + np.arange(ncol), nT, False)
+                else:
+                    rowmode = 'near'
+            if rowmode in ('near', 'near_mixed'):
+                xp = near_rows(rng, g, xp[0], nT, rowmode == 'near_mixed')
+            case['rowmode'] = rowmode
             case['xpos'] = [_lst(r) for r in xp.astype(DT[xd])]
             case['xdtype'] = xd
             case['layouts'] = {k: rng.choice(LAYOUTS) for k in ('eval1', 'eval2', 'eval3')}
@@ -854,6 +929,9 @@ class C13(Check):
                                                                       tset.ncoeff, tset.coeff.shape),))
         out.expect(bool(tset.has_jump) == (jump is not None), 'tset-attributes', 'has_jump = %r' % tset.has_jump)
         # evaluate again at the same positions, through both entry points
+        count_row_closeness(out, xpos)
+        if case.get('mmkind') == 'hair':
+            out.count('tset_explicit_limits_hair_beside_data')
         xe, ye = T.traceset2xy(tset, lay(xpos, 'eval1'))
         xe2, ye2 = tset.xy(lay(xpos, 'eval1', False))
         out.expect(np.array_equal(xe, xpos) and np.array_equal(xe2, xpos), 'tset-roundtrip',
@@ -1063,6 +1141,9 @@ class C13(Check):
                 if count:
                     out.count('xpos_layout_' + kind)
                 return relayout(a, kind)
+            count_row_closeness(out, xpos)
+            if case.get('rowmode') == 'neargrid':
+                out.count('xpos_explicit_default_grid_or_hair_beside')
             xe, ye = T.traceset2xy(tset, lay(xpos, 'eval1'))
             out.expect(np.array_equal(xe, xpos) and ye.shape == xpos.shape, 'table-evaluate',
                        'traceset2xy did not return the given positions / a y of the same shape')
